@@ -2,6 +2,14 @@ from common import ENUMX_ASSUME
 
 _PKGS = {
     'core/dutydb': 'TestVerifC18DutyDB',
+    'core/parsigdb': 'TestVerifC18ParSigDB',
+    'core/aggsigdb': 'TestVerifC18AggSigDB',
+    'core/sigagg': 'TestVerifC18SigAgg',
+    'core/scheduler': 'TestVerifC18Scheduler',
+    'core/fetcher': 'TestVerifC18Fetcher',
+    'core/validatorapi': 'TestVerifC18VAPI',
+    'core/parsigex': 'TestVerifC18ParSigEx',
+    'core/consensus/qbft': 'TestVerifC18Consensus',
 }
 
 CHECK = {'pkgs': list(_PKGS),
